@@ -10,6 +10,16 @@
   Quantifiers: every heap (finite list of objects with arbitrary references: sharing, cycles, dangling), every
   setting of the four limits including 0, every list of frames and of watch / log / capture values, every number of
   iterations.  No bound anywhere.
+
+  DOMAIN of the limits: natural numbers (`Limits` has `Nat` fields).  The code takes the four values as they are in the
+  config of a directly constructed action (tracepoint args never reach them): a negative int stops the search before the
+  root (`size > max`) or slices from the end (`text[:-1]`), a non-integer value raises inside the comparison and the
+  action produces no snapshot.  Both are outside the statement; the check records them in a labelled stream.
+
+  SCOPE of the order theorems (`c05_bfs_order`, `c05_queue_invariant`, `c05_level_order`, `c05_locals_first`) and of
+  `c05_budget_spent`: ONE search — one `process_variable` call: the locals of one frame, one watch / log field value, the
+  capture value.  A snapshot is a sequence of searches sharing the cache; across searches depths restart at 0.
+  The bounds (`c05_count`, `c05_string`, `c05_collection`, `c05_depth`) are per snapshot.
 -/
 import DeepModel.Proofs.CollectorSnap
 import DeepModel.Proofs.FramesCollect
@@ -79,8 +89,16 @@ theorem c05_collection (H : Heap) (a : ActionIn) (s : Snapshot) (h : collect H a
 
 /-! ### depth -/
 
-/-- **depth** — every entry was recorded by a node of depth at most `maxDepth - 1` (truncated subtraction: the value
-    a search starts from — a frame's locals dict, a watch value — is level 0 and is always recorded). -/
+/-- **depth** (first-recording depth) — `Entry.depth` is the depth of the node that RECORDED the entry (the value a search
+    starts from — a frame's locals dict, a watch value — is level 0 and is always recorded; truncated subtraction).  It is at
+    most `maxDepth - 1`, and a value is expanded only when its own recording depth + 1 is below the limit
+    (`c05_depth_cut`).  Within a search the recording depth is the SHALLOWEST depth at which the search meets the object
+    (`c05_bfs_order`).  This is not a bound on the longest path of references in the snapshot: an object recorded at a
+    shallow level (and expanded there) can also be referred to from a deeper entry, or from a later search, through the
+    cache — `z = [y]; y = [x]; x = [w]` with `maxDepth = 3` records `w` at depth 2 under `x`, and the chain z → y → x → w
+    has four levels.  "Nothing nested deeper than the maximum depth" is read as: nothing is recorded at a depth beyond the
+    limit and nothing is expanded at the limit; the check's oracle measures the same thing (shortest distance from the
+    frame variables / watch results in the snapshot's own graph). -/
 theorem c05_depth (H : Heap) (a : ActionIn) (s : Snapshot) (h : collect H a = .ok s) :
     ∀ e ∈ s.table, e.depth ≤ a.limits.maxDepth - 1 := by
   intro e he
@@ -118,7 +136,7 @@ theorem c05_all_sources_same_limits :
     every run; every theorem of this section depends on it -/
 theorem c05_queue_front : queueEnd = .front := queueEnd_front
 
-/-- **breadth-first order** — at any time of any search, the recorded variables were recorded in non-decreasing depth
+/-- **breadth-first order** (per search) — at any time of any search, the recorded variables were recorded in non-decreasing depth
     order: everything at one depth is recorded before anything deeper. -/
 theorem c05_bfs_order (H : Heap) (L : Limits) (c : Cache) (t : List Entry) (name : String) (o : ObjId) (k : Nat) :
     ((run H L k (bfsInit L c t name o)).recorded.map (fun p => p.1.depth)).Pairwise (· ≤ ·) := by
@@ -138,7 +156,7 @@ theorem c05_queue_invariant (H : Heap) (L : Limits) (c : Cache) (t : List Entry)
   have b := run_binv k _ (bfsInit_binv H L c t name o)
   exact ⟨b.sorted, b.span⟩
 
-/-- **shallower variables win** — once a search has taken a node more than one level below a recorded variable `p`,
+/-- **shallower variables win** (per search) — once a search has taken a node more than one level below a recorded variable `p`,
     every child of `p` already has its id: no variable is crowded out by something deeper. -/
 theorem c05_level_order (H : Heap) (L : Limits) (c : Cache) (t : List Entry) (name : String) (o : ObjId) (k : Nat) :
     let s := run H L k (bfsInit L c t name o)
